@@ -45,6 +45,15 @@ def gen_ops(tier, r):
     for s0, e0 in [(UMAX - 10**5, UMAX), (UMAX - 40, UMAX), (UMAX, UMAX), (MAXPRIME64, UMAX), (2**32 - 1000, 2**32 + 1000),
                    (UMAX - 3 * 10**5, UMAX - 1)]:
         ops.append(("top", f"count {s0} {e0} 16 {r.choice([1, 3])} {r.choice([0, 30030])}"))
+    # many pieces ending at the very top: the raw end of the last piece saturates at 2^64-1 (align / checkedAdd at
+    # the limit).  (dist - 1) % td >= 33 keeps the overridden piece length inside the envelope proved in C09.
+    for _ in range(12 if q else 120):
+        md = r.choice([60, 90, 120, 300, 3000])
+        t = r.choice([2, 3, 4, 8])
+        k = r.randrange(2, 12)
+        rem = r.randrange(34, md)
+        e0 = r.choice([UMAX, UMAX, UMAX - r.randrange(1, 40)])
+        ops.append(("top-dense", f"count {e0 - (md * k + rem)} {e0} 16 {t} {md}"))
     # more than one segment below 2^64-1 (16 KiB sieve = 491520 numbers per segment)
     ops.append(("top-multi-segment", f"count {UMAX - 600000} {UMAX} 16 1 0"))
     ops.append(("top-multi-segment", f"count {UMAX - 1000000 - r.randrange(0, 1000)} {UMAX - r.randrange(0, 40)} 16 {r.choice([1, 2])} {r.choice([0, 300000])}"))
